@@ -68,9 +68,10 @@ def run_checks(name, props=None, tier="quick"):
     rc, out = sh([os.path.join(VERIF, "check"), "selftest-patch", os.path.join(d, "patch.diff"), "--tier", tier], cwd=VERIF, env=env, timeout=7200)
     res = {}
     for ln in out.splitlines():
-        m = re.match(r"^(C\d+) exit=(\d+) ([\d.]+)s ?(.*)$", ln)
+        m = re.match(r"^(C\d+) exit=(\d+) ([\d.]+)s genuine=(\d+) spurious=(\d+) ?(.*)$", ln)
         if m:
-            res[m.group(1)] = {"exit": int(m.group(2)), "wall_s": float(m.group(3)), "first": m.group(4)[:240]}
+            res[m.group(1)] = {"exit": int(m.group(2)), "wall_s": float(m.group(3)), "replays_silent_on_clean_tree": int(m.group(4)),
+                               "replays_also_failing_on_clean_tree": int(m.group(5)), "first": m.group(6)[:240]}
     meta.setdefault("checks", {}).update(res)
     meta["detected_by"] = sorted(p for p, r in meta["checks"].items() if r["exit"] == 1)
     meta["harness_errors"] = sorted(p for p, r in meta["checks"].items() if r["exit"] == 2)
